@@ -11,7 +11,7 @@
     tree of [if]/[match] on both sides which is walked by splitting on the leftmost atom of an innermost scrutinee. *)
 From Coq Require Import NArith ZArith Bool List Btauto Lia ZifyBool ZifyN.
 From Hoot Require Import Base Chunk Body Url Request GenLib Gen Gen2.
-From Hoot.proofs Require Import BytesLemmas Gen_equiv_ext Gen2_equiv_framing.
+From Hoot.proofs Require Import BytesLemmas Gen_equiv_ext Gen2_equiv_cmp.
 Open Scope N_scope.
 
 (** ** Statement vocabulary *)
